@@ -245,6 +245,35 @@ def memory_partial_law(ctx):
                 if got != full or calls != [1]:
                     ctx.fail(["memory", "after-failure-wrong"], "after a failed getter (cut %d) the next caller got %r (getter calls: %d)" % (cut, got, len(calls)), case)
 
+def reentrant_law(ctx):
+    """one caller may read a key again inside its own with-block (the per-thread lock count): afterwards nothing is held and the key is still usable"""
+    import coba.context.cachers as cc
+    for depth in (1, 2, 3, 4):
+        for fail_body in (False, True):
+            arr = [0] * 2**16
+            cache = cc.ConcurrentCacher(cc.MemoryCacher(), arr, threading.Lock())
+            calls = []
+            def getter(): calls.append(1); return iter(["a", "b"])
+            case = dict(what="re-entrant reads", depth=depth, body_raises=fail_body)
+            ctx.count("reentrant", repr(case), True)
+            def nest(d):
+                with cache.get_set("k", getter) as v:
+                    got = list(v)
+                    if got != ["a", "b"]: raise AssertionError("value %r at depth %d" % (got, d))
+                    if d > 1: nest(d - 1)
+                    elif fail_body: raise KeyError("body")
+            try:
+                try: nest(depth)
+                except KeyError: pass
+                if any(arr): ctx.fail(["reentrant", "lock-left"], "after %d nested reads of one key by one caller%s the lock table is not clear (%s)" % (depth, " (innermost body raised)" if fail_body else "", sorted(set(x for x in arr if x))), case); continue
+                with cache.get_set("k", getter) as v: got = list(v)
+                cache.rmv("k")
+                with cache.get_set("k", getter) as v: got2 = list(v)
+                if got != ["a", "b"] or got2 != ["a", "b"] or len(calls) != 2 or any(arr):
+                    ctx.fail(["reentrant", "wrong-after"], "after nested reads: values %r / %r, getter ran %d times (expected 2: once, and once after rmv), table clear: %s" % (got, got2, len(calls), not any(arr)), case)
+            except Exception as e:
+                ctx.fail(["reentrant", "raises", errname(e)], "nested reads of one key (depth %d) then get/rmv/get raised %s: %s" % (depth, errname(e), str(e)[:80]), case)
+
 def run(ctx):
     os.makedirs(os.path.join(VERIF, ".work"), exist_ok=True)
     rng = ctx.rng
@@ -286,6 +315,7 @@ def run(ctx):
     model_compare(ctx, reqs)
     disk_prefix_law(ctx)
     memory_partial_law(ctx)
+    reentrant_law(ctx)
 
 def replay(r):
     print(json.dumps(r, indent=1, default=str)[:3000]); return 0
